@@ -12,6 +12,15 @@ use dashu_int::{
     UBig,
 };
 
+/// Parse a run of digits (with optional `_` separators) that must not carry a sign of its own:
+/// the sign of a float is written once, in front of the whole number.
+fn parse_unsigned(src: &str, radix: u32) -> Result<UBig, ParseError> {
+    if src.starts_with('+') {
+        return Err(ParseError::InvalidDigit);
+    }
+    UBig::from_str_radix(src, radix)
+}
+
 impl<const B: Word> Repr<B> {
     /// Convert a string in the native base (i.e. radix `B`) to [Repr].
     ///
@@ -94,13 +103,13 @@ impl<const B: Word> Repr<B> {
                     if int_str.is_empty() {
                         (UBig::ZERO, digits, 16)
                     } else {
-                        (UBig::from_str_radix(int_str, 16)?, digits, 16)
+                        (parse_unsigned(int_str, 16)?, digits, 16)
                     }
                 } else if B == 2 && pmarker && !has_prefix {
                     return Err(ParseError::UnsupportedRadix);
                 } else {
                     let digits = int_str.len() - int_str.matches('_').count();
-                    (UBig::from_str_radix(&src[..dot], B as u32)?, digits, B as u32)
+                    (parse_unsigned(&src[..dot], B as u32)?, digits, B as u32)
                 }
             } else {
                 if pmarker {
@@ -117,11 +126,15 @@ impl<const B: Word> Repr<B> {
                 if B == 2 && base == 16 {
                     digits *= 4;
                 }
-                (UBig::from_str_radix(src, base)?, digits)
+                (parse_unsigned(src, base)?, digits)
             } else {
                 (UBig::ZERO, 0)
             };
             ndigits = int_digits + fract_digits;
+            if ndigits == 0 {
+                // "0x." : neither an integral nor a fractional part
+                return Err(ParseError::NoDigits);
+            }
 
             if fract.is_zero() {
                 int
@@ -134,12 +147,12 @@ impl<const B: Word> Repr<B> {
             if B == 2 && has_prefix {
                 src = &src[2..];
                 ndigits = 4 * (src.len() - src.matches('_').count());
-                UBig::from_str_radix(src, 16)?
+                parse_unsigned(src, 16)?
             } else if B == 2 && pmarker && !has_prefix {
                 return Err(ParseError::UnsupportedRadix);
             } else {
                 ndigits = src.len() - src.matches('_').count();
-                UBig::from_str_radix(src, B as u32)?
+                parse_unsigned(src, B as u32)?
             }
         };
 
